@@ -1,10 +1,10 @@
 #!/bin/bash
-# usage: run_mutations.sh [m1 m2 ...]   (run from anywhere; needs /tmp/work/repo_snap4)
+# usage: run_mutations.sh [m1 m2 ...]   (run from anywhere; needs /tmp/work/repo_snap12)
 HERE=$(cd "$(dirname "$0")" && pwd); ROOT=$(cd "$HERE/../.." && pwd)
 # m*.diff: mutations (patch -p1); revert_*.rdiff: `git show <fix commit>` applied in reverse (patch -R -p1)
 MUTS=${@:-$(ls $HERE/*.diff $HERE/*.rdiff | xargs -n1 basename | sed 's/\.r\?diff$//' | sort -V)}
 for m in $MUTS; do
-  rm -rf /tmp/work/mut_C07; cp -r /tmp/work/repo_snap4 /tmp/work/mut_C07
+  rm -rf /tmp/work/mut_C07; cp -r /tmp/work/repo_snap12 /tmp/work/mut_C07
   if [ -f $HERE/$m.rdiff ]; then
     (cd /tmp/work/mut_C07 && patch -s -R -p1 < $HERE/$m.rdiff) || { echo "$m: PATCH FAILED"; continue; }
   else
@@ -30,4 +30,4 @@ PY
 done
 rm -rf /tmp/work/mut_C07 $ROOT/replays/C07
 # restore the pins / build products for the unchanged snapshot
-(cd $ROOT && VERIF_REPO=/tmp/work/repo_snap4 ./check C07 quick 2>&1 | grep '^check C07\|^VIOLATION')
+(cd $ROOT && VERIF_REPO=/tmp/work/repo_snap12 ./check C07 quick 2>&1 | grep '^check C07\|^VIOLATION')
